@@ -9,7 +9,7 @@
    What is VALIDATED case by case (lib/c08.py): that the implementation's compiler output is accepted —
    the proved verifier runs inside Coq on the byte-code dumped from the real parser. *)
 From Coq Require Import NArith ZArith List Bool String.
-From DS Require Import Model.Bytecode Model.Verify Proofs.VerifyProofs.
+From DS Require Import Model.Bytecode Model.Verify Proofs.VerifyProofs Model.Ast Model.Compile Proofs.CompileVerified.
 Import ListNotations.
 
 (* an inductive annotation is preserved by every step, and no consistent state is stuck *)
@@ -53,6 +53,18 @@ Theorem C08_verify_all_safe c :
      List.length (blocks s1) = List.length (blocks s2) /\ List.length (fblocks s1) = List.length (fblocks s2)).
 Proof. exact (verify_all_safe c). Qed.
 
+(* ---- the compiler model: EVERY program of Model/Ast.v (all expression forms incl. ||, ternary, array literals, indexing,
+   dice; if / else, while, break, continue — no fragment restriction, no size bound) compiles to code that the checker
+   accepts under an annotation built by recursion on the syntax tree, hence is well-formed on every path: no reachable
+   state of the shape machine is stuck (no stack underflow, no jump out of bounds, no block mismatch, no missing dice /
+   detail state), and two arrivals at one instruction agree on the number of open blocks.  Model/Compile.v is tied to the
+   real parser instruction by instruction (K4, lib/c02.py); for programs outside that AST the verifier runs on the real
+   dumps, case by case. *)
+Theorem C08_compile_never_stuck :
+  forall (p : stmt) s, reachable (to_shape (compile p)) s -> forall r, sstep (to_shape (compile p)) s <> Stuck r.
+Proof. exact compile_never_stuck. Qed.
+
+Print Assumptions C08_compile_never_stuck.
 Print Assumptions C08_verify_sound.
 Print Assumptions C08_no_stuck_reachable.
 Print Assumptions C08_block_depth_unique.
